@@ -136,3 +136,8 @@ def _mixed_modes_in_slot(v, case):
 @predicate("foreign_edge_inside_slot")
 def _foreign_edge_inside_slot(v, case):
     return bool(v.data.get("foreign_edge_inside"))
+
+
+@predicate("later_scenario_other_horizon")
+def _later_scenario_other_horizon(v, case):
+    return bool(v.data.get("horizon_differs")) and int(v.data.get("scenario_index", 0)) > 0
